@@ -57,6 +57,9 @@ CONSTANTS
   FnBeforeRetry,          \* FALSE (code): the user function is called only on a path that commits
   BroadcastOnResizeEnd,   \* TRUE (code)
   UnlockOnNewerTable,     \* TRUE (code): the retry path after `newer table exists` unlocks first
+  ResizeRereadsTable,     \* TRUE (code): after winning the resizing CAS the resizer re-reads m.table; FALSE: it trusts the caller's table
+  CopySkipsEmptyBuckets,  \* FALSE (code): the copy locks every bucket; TRUE: it skips buckets that look empty without locking them
+  ClearChecksCounter,     \* FALSE (code): Clear always resizes; TRUE: it returns early when the table is minimal and the counter reads zero
   LoadOnMissWaits,        \* FALSE (code): a lookup never consults the resize flag; TRUE: on a miss it waits for a resize in progress
   RangeSnapshotsTable,    \* TRUE (code): a traversal walks the one table generation it loaded at the start
   ZeroOnAbsentDelete      \* TRUE (fixed code): Compute(delete) on an absent key returns the zero value on every path
@@ -188,9 +191,9 @@ RZ1r:  if hint = "clear" /\ ClearLoserRetries then goto RZ1; else return; end if
      else
        resizing := TRUE;
      end if;
-RZ2: rz_t := cur;                                         \* LoadPointer(&m.table)
-     rz_nb := IF hint = "grow" THEN 2 * tabs[cur].nb ELSE IF hint = "shrink" THEN tabs[cur].nb \div 2 ELSE MinNB;
-     if hint = "shrink" /\ ~(tabs[cur].nb > MinNB /\ tabs[cur].size <= ShrinkAt[tabs[cur].nb]) then
+RZ2: rz_t := IF ResizeRereadsTable THEN cur ELSE known;   \* LoadPointer(&m.table)
+     rz_nb := IF hint = "grow" THEN 2 * tabs[rz_t].nb ELSE IF hint = "shrink" THEN tabs[rz_t].nb \div 2 ELSE MinNB;
+     if hint = "shrink" /\ ~(tabs[rz_t].nb > MinNB /\ tabs[rz_t].size <= ShrinkAt[tabs[rz_t].nb]) then
        goto RZa;                                          \* no need to shrink: wake up all waiters and give up
      else
        rz_new := nextGen; nextGen := nextGen + 1;
@@ -198,7 +201,9 @@ RZ2: rz_t := cur;                                         \* LoadPointer(&m.tabl
        rz_b := 0; rz_cnt := 0;
      end if;
 RZc: while hint # "clear" /\ rz_b < tabs[rz_t].nb do
-RZl:   if CopyLocksBuckets then                           \* copyBucket: lockBucket / rootb.mu.Lock
+RZl:   if CopySkipsEmptyBuckets /\ ChainIsEmpty(tabs[rz_t].cells[rz_b]) /\ Len(tabs[rz_t].cells[rz_b]) = 1 then
+         rz_b := rz_b + 1; goto RZc;                        \* (alternative design) an empty, chain-less bucket is skipped unlocked
+       elsif CopyLocksBuckets then                        \* copyBucket: lockBucket / rootb.mu.Lock
          await tabs[rz_t].lock[rz_b] = None; tabs[rz_t].lock[rz_b] := self;
        end if;
 RZu:   tabs[rz_new] := PutAll(tabs[rz_new], LiveEntries(tabs[rz_t].cells[rz_b]))     \* plain copy + unlock
@@ -395,7 +400,11 @@ procedure clearMap()
 variables c_t = 0;
 begin
 CL1: c_t := cur;                                                  \* LoadPointer(&m.table)
-     call resize("clear", c_t);
+     if ClearChecksCounter /\ tabs[cur].nb = MinNB /\ tabs[cur].size = 0 then
+       goto CL2;                                                  \* (alternative design) "nothing to clear"
+     else
+       call resize("clear", c_t);
+     end if;
 CL2: return;
 end procedure;
 
@@ -631,9 +640,9 @@ RZ1r(self) == /\ pc[self] = "RZ1r"
                               d_fndone, d_left, r_t, r_b, r_ents, r_i, c_t, ci >>
 
 RZ2(self) == /\ pc[self] = "RZ2"
-             /\ rz_t' = [rz_t EXCEPT ![self] = cur]
-             /\ rz_nb' = [rz_nb EXCEPT ![self] = IF hint[self] = "grow" THEN 2 * tabs[cur].nb ELSE IF hint[self] = "shrink" THEN tabs[cur].nb \div 2 ELSE MinNB]
-             /\ IF hint[self] = "shrink" /\ ~(tabs[cur].nb > MinNB /\ tabs[cur].size <= ShrinkAt[tabs[cur].nb])
+             /\ rz_t' = [rz_t EXCEPT ![self] = IF ResizeRereadsTable THEN cur ELSE known[self]]
+             /\ rz_nb' = [rz_nb EXCEPT ![self] = IF hint[self] = "grow" THEN 2 * tabs[rz_t'[self]].nb ELSE IF hint[self] = "shrink" THEN tabs[rz_t'[self]].nb \div 2 ELSE MinNB]
+             /\ IF hint[self] = "shrink" /\ ~(tabs[rz_t'[self]].nb > MinNB /\ tabs[rz_t'[self]].size <= ShrinkAt[tabs[rz_t'[self]].nb])
                    THEN /\ pc' = [pc EXCEPT ![self] = "RZa"]
                         /\ UNCHANGED << tabs, nextGen, rz_new, rz_b, rz_cnt >>
                    ELSE /\ rz_new' = [rz_new EXCEPT ![self] = nextGen]
@@ -663,17 +672,22 @@ RZc(self) == /\ pc[self] = "RZc"
                              d_fndone, d_left, r_t, r_b, r_ents, r_i, c_t, ci >>
 
 RZl(self) == /\ pc[self] = "RZl"
-             /\ IF CopyLocksBuckets
-                   THEN /\ tabs[rz_t[self]].lock[rz_b[self]] = None
-                        /\ tabs' = [tabs EXCEPT ![rz_t[self]].lock[rz_b[self]] = self]
-                   ELSE /\ TRUE
+             /\ IF CopySkipsEmptyBuckets /\ ChainIsEmpty(tabs[rz_t[self]].cells[rz_b[self]]) /\ Len(tabs[rz_t[self]].cells[rz_b[self]]) = 1
+                   THEN /\ rz_b' = [rz_b EXCEPT ![self] = rz_b[self] + 1]
+                        /\ pc' = [pc EXCEPT ![self] = "RZc"]
                         /\ tabs' = tabs
-             /\ pc' = [pc EXCEPT ![self] = "RZu"]
+                   ELSE /\ IF CopyLocksBuckets
+                              THEN /\ tabs[rz_t[self]].lock[rz_b[self]] = None
+                                   /\ tabs' = [tabs EXCEPT ![rz_t[self]].lock[rz_b[self]] = self]
+                              ELSE /\ TRUE
+                                   /\ tabs' = tabs
+                        /\ pc' = [pc EXCEPT ![self] = "RZu"]
+                        /\ rz_b' = rz_b
              /\ UNCHANGED << cur, nextGen, resizing, rmu, waiters, clk, done, 
                              fncalls, lres, cres, rvis, pcnt, stack, hint, 
-                             known, rz_t, rz_new, rz_b, rz_nb, rz_cnt, lk, l_t, 
-                             l_b, l_c, l_cand, l_s, l_v, l_k, kind, dk, dv, 
-                             dfn, d_t, d_b, d_pos, d_old, d_r, d_ins, d_fnres, 
+                             known, rz_t, rz_new, rz_nb, rz_cnt, lk, l_t, l_b, 
+                             l_c, l_cand, l_s, l_v, l_k, kind, dk, dv, dfn, 
+                             d_t, d_b, d_pos, d_old, d_r, d_ins, d_fnres, 
                              d_fndone, d_left, r_t, r_b, r_ents, r_i, c_t, ci >>
 
 RZu(self) == /\ pc[self] = "RZu"
@@ -1658,24 +1672,28 @@ rangeAll(self) == R1(self) \/ R2(self) \/ R2l(self) \/ R2u(self)
 
 CL1(self) == /\ pc[self] = "CL1"
              /\ c_t' = [c_t EXCEPT ![self] = cur]
-             /\ /\ hint' = [hint EXCEPT ![self] = "clear"]
-                /\ known' = [known EXCEPT ![self] = c_t'[self]]
-                /\ stack' = [stack EXCEPT ![self] = << [ procedure |->  "resize",
-                                                         pc        |->  "CL2",
-                                                         rz_t      |->  rz_t[self],
-                                                         rz_new    |->  rz_new[self],
-                                                         rz_b      |->  rz_b[self],
-                                                         rz_nb     |->  rz_nb[self],
-                                                         rz_cnt    |->  rz_cnt[self],
-                                                         hint      |->  hint[self],
-                                                         known     |->  known[self] ] >>
-                                                     \o stack[self]]
-             /\ rz_t' = [rz_t EXCEPT ![self] = 0]
-             /\ rz_new' = [rz_new EXCEPT ![self] = 0]
-             /\ rz_b' = [rz_b EXCEPT ![self] = 0]
-             /\ rz_nb' = [rz_nb EXCEPT ![self] = 0]
-             /\ rz_cnt' = [rz_cnt EXCEPT ![self] = 0]
-             /\ pc' = [pc EXCEPT ![self] = "RZ0"]
+             /\ IF ClearChecksCounter /\ tabs[cur].nb = MinNB /\ tabs[cur].size = 0
+                   THEN /\ pc' = [pc EXCEPT ![self] = "CL2"]
+                        /\ UNCHANGED << stack, hint, known, rz_t, rz_new, rz_b, 
+                                        rz_nb, rz_cnt >>
+                   ELSE /\ /\ hint' = [hint EXCEPT ![self] = "clear"]
+                           /\ known' = [known EXCEPT ![self] = c_t'[self]]
+                           /\ stack' = [stack EXCEPT ![self] = << [ procedure |->  "resize",
+                                                                    pc        |->  "CL2",
+                                                                    rz_t      |->  rz_t[self],
+                                                                    rz_new    |->  rz_new[self],
+                                                                    rz_b      |->  rz_b[self],
+                                                                    rz_nb     |->  rz_nb[self],
+                                                                    rz_cnt    |->  rz_cnt[self],
+                                                                    hint      |->  hint[self],
+                                                                    known     |->  known[self] ] >>
+                                                                \o stack[self]]
+                        /\ rz_t' = [rz_t EXCEPT ![self] = 0]
+                        /\ rz_new' = [rz_new EXCEPT ![self] = 0]
+                        /\ rz_b' = [rz_b EXCEPT ![self] = 0]
+                        /\ rz_nb' = [rz_nb EXCEPT ![self] = 0]
+                        /\ rz_cnt' = [rz_cnt EXCEPT ![self] = 0]
+                        /\ pc' = [pc EXCEPT ![self] = "RZ0"]
              /\ UNCHANGED << tabs, cur, nextGen, resizing, rmu, waiters, clk, 
                              done, fncalls, lres, cres, rvis, pcnt, lk, l_t, 
                              l_b, l_c, l_cand, l_s, l_v, l_k, kind, dk, dv, 
